@@ -85,7 +85,7 @@ func sanitizersForAttributeValue(c context) ([]string, error) {
 			}
 		}
 	}
-	if sc0.isEnum() && c.attr.value != "" {
+	if sc0.isEnum() && (c.attr.value != "" || c.attr.ambiguousValue) {
 		return nil, fmt.Errorf("partial substitutions are disallowed in the %q attribute value context of a %q element", c.attr.name, c.element.name)
 	}
 	if sc0 == sanitizationContextStyle && c.attr.value != "" {
